@@ -151,6 +151,7 @@ def run_case(exe, case, workdir, tag, timeout=120, env=None):
     if os.path.exists(rf):
         os.unlink(rf)
     e = dict(os.environ); e["ASAN_OPTIONS"] = "detect_leaks=0"
+    if env is None: env = (case.get("meta") or {}).get("env")      # e.g. the dynamic supernode-storage scheme (an environment variable)
     if env: e.update(env)
     try:
         p = subprocess.run([exe, cf, rf], stdout=subprocess.PIPE, stderr=subprocess.PIPE, timeout=timeout, env=e)
